@@ -660,6 +660,12 @@ func (x *Exec) runLoop(ls *loopSpec, st *State) flow {
 	defer func() { x.loopPre = savedPre }()
 	lname := fmt.Sprintf("inv%d", ls.ord)
 	bodyPos := ls.node.Pos()
+	switch nd := ls.node.(type) {
+	case *ast.ForStmt:
+		bodyPos = nd.Body.Lbrace + 1
+	case *ast.RangeStmt:
+		bodyPos = nd.Body.Lbrace + 1
+	}
 	if !fr.top {
 		invs, decs = nil, nil
 	}
